@@ -349,7 +349,8 @@ class Array:
         For floating point types using a value of float('nan') will count the number of elements that are NaN.
 
         """
-        if math.isnan(value):
+        # Only numeric values can be NaN (math.isnan raises TypeError for str, bytes and Bits values).
+        if isinstance(value, (int, float)) and math.isnan(value):
             return sum(math.isnan(i) for i in self)
         else:
             return sum(i == value for i in self)
